@@ -100,6 +100,19 @@ def run(rep, br, proofs, rng, tier):
             c = mk_case("a.%d.%d" % (ai, ui), "history", "1", ["hist", [hexs(src.encode()), "0", "0", ["args", av, ["i", "5"]]]], hexs(FOLLOW.encode()), ["args"])
             c["src"], c["name"] = src + "   // a = " + vlib.sexp_str(av), "arg"
             cases.append(c)
+    # keys whose conversion to a string fails or panics in Go (a host object that implements nothing, a function without
+    # a value, an empty pointer) used as index of every container, and the container used again afterwards
+    KEYS = [["oimpl"], ["fn0"], ["optr0"], ["n"], ["rt0"]]
+    CONTS = [["sm", [hexs(b"k"), ["i", "1"]]], ["sm0"], ["m", [hexs(b"k"), ["i", "1"]]], ["a", ["i", "1"]], ["y", hexs(b"ab")], ["s", hexs(b"ab")]]
+    KUSES = ["a[b] = 1\nreturn 1", "return a[b]", "try { a[b] = 1 } catch { }\na.z = 2\nreturn [a.z, len(a)]", "try { x := a[b] } catch { }\na.w = 3\ndelete(a, \"w\")\nreturn len(a)",
+             "try { delete(a, b) } catch { }\na.v = 1\nreturn a.v", "try { x := contains(a, b) } catch { }\nreturn len(a)", "for i := 0; i < 2; i++ { try { a[b] = i } catch { } }\nreturn len(a)"]
+    for ci, cv in enumerate(CONTS):
+        for ki, kv in enumerate(KEYS):
+            for ui, use in enumerate(KUSES):
+                src = "param (a, b)\n" + use
+                c = mk_case("k.%d.%d.%d" % (ci, ki, ui), "history", "1", ["hist", [hexs(src.encode()), "0", "0", ["args", cv, kv]]], hexs(FOLLOW.encode()), ["args"])
+                c["src"], c["name"], c["must_end"] = src + "   // a = %s, b = %s" % (vlib.sexp_str(cv), vlib.sexp_str(kv)), "key", True
+                cases.append(c)
     impl, culprits = vlib.run_impl_robust(cases, batch=40, timeout=120)
     fails, classes = [], {}
     for c, how in culprits:
@@ -112,6 +125,8 @@ def run(rep, br, proofs, rng, tier):
         r = sx[1][1]
         k = r[0]
         classes[k] = classes.get(k, 0) + 1
+        if k == "timeout" and c.get("must_end"):
+            fails.append((c, "Run returned neither a value nor an error within 3 s for a script without loops (a lock left held?)")); continue
         if k == "panic":
             fails.append((c, "a Go panic escaped VM.Run with recovery enabled: %s" % vlib.sexp_str(r)[:300])); continue
         if c["name"].startswith("expr:") and c["id"].split(".")[-2] == "0" and k == "ok":
@@ -140,7 +155,7 @@ def run(rep, br, proofs, rng, tier):
         rep.violation({"property": "C06", "kind": "oracle", "why": why, "case": c["line"][:2000], "script": c["src"]})
     rep.coverage.update({
         "evaluations": len(cases), "distinct_nontrivial": sum(v for k, v in classes.items() if k == "err"),
-        "rule": "programs built to fail (zero division and remainder, negative shifts, bad indexes and slices, calls of non-callables, failing builtins, Go callbacks that panic or index out of range, recursion to depth 1000..1025 and unbounded, frames with 1..250 locals recursing to the value-stack limit with and without a callback panic at the edge, array literals and calls of 2030..5000 elements around the 2048-slot stack, variadic calls at depth, throws and panics inside catch and finally, frames re-used by a discarded self call in tail position and left by a panic or error, Go panics, errors and stack overflow inside a script function which the host calls back through a pooled or unpooled Invoker, also nested), each bare, inside try/catch, try/finally, try/catch/finally and inside a called function, with and without arguments; every use of a parameter (return, index, selector, call, operators, builtins, for-in, spread, throw, assignment through it) x arguments of every type incl. host-side objects in unusual states (ObjectPtr and SyncMap without a value, a Function without a Go function, an empty RuntimeError, containers of those); run with recovery enabled under recover(), followed by a known script on the same VM compared with a new VM; non-trivial = the run ended with a uGO error",
+        "rule": "programs built to fail (zero division and remainder, negative shifts, bad indexes and slices, calls of non-callables, failing builtins, Go callbacks that panic or index out of range, recursion to depth 1000..1025 and unbounded, frames with 1..250 locals recursing to the value-stack limit with and without a callback panic at the edge, array literals and calls of 2030..5000 elements around the 2048-slot stack, variadic calls at depth, throws and panics inside catch and finally, frames re-used by a discarded self call in tail position and left by a panic or error, Go panics, errors and stack overflow inside a script function which the host calls back through a pooled or unpooled Invoker, also nested), each bare, inside try/catch, try/finally, try/catch/finally and inside a called function, with and without arguments; every use of a parameter (return, index, selector, call, operators, builtins, for-in, spread, throw, assignment through it) x arguments of every type incl. host-side objects in unusual states (ObjectPtr and SyncMap without a value, a Function without a Go function, an empty RuntimeError, containers of those); keys whose conversion to a string panics used as index of every container, the container used again afterwards (such a run must end); run with recovery enabled under recover(), followed by a known script on the same VM compared with a new VM; non-trivial = the run ended with a uGO error",
         "samples": [cases[0]["src"], cases[-1]["src"]],
         "outcome_classes": classes, "oracle_failures": len(fails)})
 
